@@ -1200,3 +1200,118 @@ LEVEL_NOTE = LEVEL_NOTE.replace("Partial: zsh/fish/nushell have no generator mod
                                 "byte-exact generator models with theorems but are not installed (what the shell does with the script "
                                 "is not modelled); that two commands never share a declared name is not stated (exactly one block per command is)")
 # ---- end nushell generator model ----
+# ---- zsh generator model ----
+# Byte-exact Gallina model of clap_complete/src/aot/shells/zsh.rs (coq/theories/Complete/ZshModel.v over the built tree of
+# AotTree.v and the text decoration of FishModel.v; theorems in ZshProofs.v / ZshLexProofs.v).  Correspondence streams
+# `zsh-model` / `zsh-model-names`: the script of the extracted model must equal the real generator's script BYTE FOR BYTE.
+AREAS = AREAS + ["zsh"]
+TRUSTED = TRUSTED + [
+    "zsh generator model: extraction of Complete/ZshModel.v (+ FishModel.v's text decoration and dbuild; ExtrOcamlBasic "
+    "only), driver ocaml/zsh_driver.ml (readers of the aot and aottext spec formats; Arg::blacklist = conflicts_with is a "
+    "parameter of the model -- a function (owning command, argument) -> ids -- that the driver supplies from the (cx ..) "
+    "items of the spec: keyed by the bin name of the command, a propagated global argument reads the entry of the nearest "
+    "ancestor that declares it); value_names, value_terminator, last, argument groups and conflicts ON global arguments "
+    "are outside the model (no spec format expresses them)",
+]
+
+ZSH_NAME_BYTES = ["'", "\\", ",", "$", "#", " ", "\"", "`", "(", ")", ";", "\t", "é", "%", "~", "*", "=", "\n", "-", "_",
+                  "[", "]", ":", "+", "|"]
+
+
+def zsh_names_case(rng):
+    """fish_names_case with the alphabet of the zsh slots ('[', ']', ':' added) for the zsh generator"""
+    global FISH_NAME_BYTES
+    saved = FISH_NAME_BYTES
+    FISH_NAME_BYTES = ZSH_NAME_BYTES
+    try:
+        c = fish_names_case(rng)
+    finally:
+        FISH_NAME_BYTES = saved
+    return c.replace("(aot fish ", "(aot zsh ", 1)
+
+
+def zsh_lookup_cases():
+    """the lookup by bin name (parser_of): sibling names that are string prefixes of each other, at two levels and
+    in both orders; names with a space whose bin name collides with a nested path (both orders: the lookup returns
+    the first in pre-order); empty bin name; empty subcommand name"""
+    h = hexs
+    fl = lambda i, s: "(arg %s (s %s) (act flag))" % (h(i), h(s))
+    out = []
+    for a, b in (("add", "add-all"), ("add-all", "add"), ("a", "a b"), ("ab", "a")):
+        out.append("(aot zsh %s (cmd %s (cmd %s %s (cmd %s %s) (cmd %s %s)) (cmd %s %s (cmd %s %s))))"
+                   % (h("p"), h("p"), h(a), fl("f1", "a"), h(a), fl("f2", "b"), h(b), fl("f3", "c"),
+                      h(b), fl("f4", "d"), h(a), fl("f5", "e")))
+    out.append("(aot zsh %s (cmd %s (cmd %s %s) (cmd %s (cmd %s %s))))"
+               % (h("prog"), h("prog"), h("a b"), fl("f1", "x"), h("a"), h("b"), fl("f2", "y")))
+    out.append("(aot zsh %s (cmd %s (cmd %s (cmd %s %s)) (cmd %s %s)))"
+               % (h("prog"), h("prog"), h("a"), h("b"), fl("f2", "y"), h("a b"), fl("f1", "x")))
+    out.append("(aot zsh %s (cmd %s (cmd %s (cmd %s))))" % (h(""), h("prog"), h("a"), h("b")))
+    out.append("(aot zsh %s (cmd %s (cmd %s (cmd %s))))" % (h("a"), h("prog"), h(""), h("b")))
+    out.append("(aot zsh %s (cmd %s (cmd %s (cmd %s)) (cmd %s)))" % (h("p q"), h("prog"), h("r"), h("s"), h("r s")))
+    return out
+
+
+_streams_without_zsh_model = streams
+
+
+def streams(tier, rng):
+    out = _streams_without_zsh_model(tier, rng)
+    quick = tier == "quick"
+    cases, dist = [], {}
+    plans = [(None, 90 if quick else 1300),
+             ({"alias_without_primary": True}, 12 if quick else 150),    # finding alias-without-primary (class boundary)
+             ({"optional_value": True}, 12 if quick else 150),           # finding zsh-optional-value (class boundary)
+             ({"conflicts": 1.0}, 25 if quick else 400),                 # conflicts_with on every level with >= 2 options: the exclusion lists, in order
+             ({"bin": "b in"}, 4 if quick else 40), ({"bin": "é-x"}, 4 if quick else 40)]
+    for prof, n in plans:
+        for _ in range(n):
+            c, st = make_case(rng, "zsh", tier, profile=prof)
+            cases.append(c)
+            merge(dist, st)
+    out.append(Stream("zsh-model", cases, oracle=oracle, area="zsh", project=fish_project, nontrivial=nontrivial,
+                      describe=dist))
+    cases = zsh_lookup_cases() + [zsh_names_case(rng) for _ in range(50 if quick else 1200)]
+    out.append(Stream("zsh-model-names", cases, area="zsh", project=fish_project, nontrivial=nontrivial,
+                      describe={"trees": len(cases), "name alphabet": [repr(c) for c in ZSH_NAME_BYTES],
+                                "lookup cases": len(zsh_lookup_cases())}))
+    return out
+
+
+RULE = RULE + ("  Streams zsh-model / zsh-model-names: the same trees (+ options whose aliases have no primary, optional "
+               "values, bin names with a space / non-ASCII; names with quotes, brackets, colons, spaces; sibling names that "
+               "are prefixes of each other; colliding bin names) on which the script of the extracted zsh generator model "
+               "must equal the real script byte for byte.")
+TECHNIQUE = TECHNIQUE + ("; zsh: byte-exact model of shells/zsh.rs (the lookup by bin name modelled as the search it is) with "
+                         "totality, exact-lookup, path-coverage and per-level mention theorems, the script compared byte for byte")
+LEVEL_TEXT = (LEVEL_TEXT +
+              "  zsh (round 2): an executable Gallina transcription of shells/zsh.rs (generate, subcommand_details, "
+              "subcommands_of, get_subcommands_of, parser_of, get_args_of, write_opts_of, write_flags_of, "
+              "write_positionals_of, value_completion, arg_conflicts; every expect a visible None; the recursion through "
+              "parser_of fuelled) is proved total and deterministic for every linked tree with a bin name: the lookup by bin "
+              "name is sound and complete on every tree (the expects on parser_of are dead) and, when no command name contains "
+              "a space and sibling names are distinct, returns exactly the node whose bin name was looked up (siblings such "
+              "as add / add-all included), so the recursion computes a function that is structural in the tree.  In that "
+              "class the file contains, for EVERY path of names or visible aliases at every depth, the arm label of the last "
+              "word followed by the _arguments block of the node the path leads to, nested in the arms of the words before; "
+              "every block has a spec line for every short / long spelling the accessors return for an option (the primary "
+              "and every visible alias when the primary exists), for the short, long and every visible alias of a flag, for "
+              "every single-valued positional, carries every non-hidden possible value on every line of an option that "
+              "requires a value and on positional lines, and the two lines leading to the subcommands; for every node the "
+              "file has its _<bin>_commands function with an entry per name and visible alias of every subcommand.  The "
+              "recorded findings alias-without-primary and zsh-optional-value and a subcommand name with a space (lookup "
+              "returns another node: its flag is nowhere in the file; replayed) are proved class boundaries.  At the level of the "
+              "tree the user wrote: when no subcommand carries an explicit bin name and the bin name is not empty, "
+              "Command::build yields a linked tree and generate (set_bin_name + build + generator) writes a script for every "
+              "tree and every assignment of texts.  The model's "
+              "script is compared byte for byte with the real generator's on every generated tree on every run.")
+LEVEL_NOTE = ("Partial: fish (two levels), PowerShell, elvish, nushell and zsh "
+              "have byte-exact generator models with theorems but are not installed (their scripts are modelled and analysed, "
+              "not run); bash itself is validated by execution, not proved; Command::build and its text side are tied "
+              "differentially (built-tree dump, byte-exact scripts; that build never exhausts its fuel and yields a linked tree "
+              "ARE proved); that build keeps names free of spaces and sibling names distinct is a hypothesis of the zsh "
+              "exact-lookup and coverage theorems (tied by the built-tree dump); zsh: conflicts_with is a parameter of the "
+              "model (the exclusion lists are compared byte for byte, their order is pinned by C16_zsh_conflicts_list), "
+              "value_names, value_terminator, last, groups and conflicts on global arguments are outside the model, "
+              "multi-valued positionals after a catch-all are skipped by design; char::is_uppercase is a parameter of the "
+              "PowerShell model; known findings (see known_findings.json) are outside the proved class.")
+# ---- end zsh generator model ----
